@@ -55,6 +55,9 @@ func deriveKey(passphrase []byte) []byte {
 
 // DecryptAES decrypts AES payload using the nonce and the passphrase
 func DecryptAES(nonce, payload, passphrase []byte) ([]byte, error) {
+	if len(nonce) != nonceLen {
+		return nil, errors.New("invalid nonce length")
+	}
 	key := deriveKey(passphrase)
 	b, err := aes.NewCipher(key)
 	if err != nil {
@@ -101,6 +104,9 @@ func EncryptAES(payload, passphrase []byte) ([]byte, []byte, error) {
 
 // DecryptValueKey decrypts the value key using the passphrase
 func DecryptValueKey(valKey, mh multihash.Multihash) ([]byte, error) {
+	if len(valKey) <= nonceLen {
+		return nil, errors.New("encrypted value key too short")
+	}
 	return DecryptAES(valKey[:nonceLen], valKey[nonceLen:], mh)
 }
 
